@@ -226,6 +226,9 @@ def streamDeleted (parts : String → Nat) (g : Group) (s : String) (epoch : Nat
   else match sget g.subs s with
     | none => .ok g
     | some ids =>
+      -- a heap emptied by departed members: nothing changes for the group, the (empty) heap is
+      -- dropped and the epoch is left alone (fix abd9059, `Gen.Groups.emptyHeapKeepsEpoch`)
+      if Gen.Groups.emptyHeapKeepsEpoch && ids.isEmpty then .ok { g with subs := sdel g.subs s } else
       let ms := g.members.map fun c =>
         if c.id ∈ ids then
           { (c.removeStreamAssignments s) with streams := c.streams.filter (· ≠ s) }
